@@ -11,7 +11,7 @@ template <> struct ftype<1> { using type = cb::morton<cv::size2, cb::array<cv::f
 template <> struct ftype<2> { using type = cb::affine<cb::linear<cb::strided<cv::size2, cb::array<cv::float1>>>>; using other = cb::affine<cb::nearest_neighbour<cb::morton<cv::size2, cb::array<cv::float1>, false>>>; };
 
 enum { EMPTY = 0, LIVE = 1, MOVED = 2 };
-enum { OP_COPY_CONSTRUCT, OP_MOVE_CONSTRUCT, OP_COPY_ASSIGN, OP_MOVE_ASSIGN, OP_WRITE, OP_DESTROY, OP_CONVERT, OP_DUMPLOAD, OP_CREATE, NOPS };
+enum { OP_COPY_CONSTRUCT, OP_MOVE_CONSTRUCT, OP_COPY_ASSIGN, OP_MOVE_ASSIGN, OP_WRITE, OP_DESTROY, OP_CONVERT, OP_DUMPLOAD, OP_LOADFAIL, OP_CREATE, NOPS };
 
 // the layout layer (integer coordinates, array storage) of a stack
 template <class O> static auto & layout_of_data(O & o)
@@ -172,6 +172,23 @@ template <class B> struct world {
             std::istream * is = vf_istream_from(os, vf_stream_len(os), VF_NEVER);
             new (mem[a]) F(*is);
             copy_model(a, b); state[a] = LIVE;
+            break;
+        }
+        case OP_LOADFAIL: {
+            // a load from a truncated dump of slot b into the empty slot a: must throw and leave everything as it was
+            vf_assume(state[a] == EMPTY && state[b] == LIVE);
+            std::ostream * os = vf_ostream();
+            at(b).dump(*os);
+            size_t t = vf_nondet_u64();
+            vf_assume(t < vf_stream_len(os));
+            std::istream * is = vf_istream_from(os, t, VF_NEVER);
+            bool threw = false;
+            try {
+                new (mem[a]) F(*is);
+            } catch (...) {
+                threw = true;
+            }
+            vf_assert(threw, 80);
             break;
         }
         default:
